@@ -84,7 +84,7 @@ def base_consts(tier, igns, sigs=None, pvals=None):
     if sigs is None:
         sigs = set(range(48)) if thorough else {1, 2, 3, 6, 14, 18, 22, 26, 30, 34, 42, 47}
     if pvals is None:
-        pvals = {1, 2, 3, 4, 5} if thorough else {1, 2}
+        pvals = {1, 2, 3, 4, 5, 7} if thorough else {1, 2}
     return dict(SigIds=set(sigs), PVals=set(pvals), MAXP=2, MAXK=2,
                 KwNames={'x', 'y', 'k', 'z'}, IgnIds=set(igns), Deviations=set())
 
@@ -121,7 +121,17 @@ def real_traces(groups, rng, tier, modes=('keygen', 'std', 'safe'), kms=None):
                     continue       # (args, kwds) with a dict inside is unhashable: unusable as a dict key by design
                 if mode == 'safe' and (tier != 'thorough' and n % 4 != g['sid'] % 4):
                     continue
-                jobs.append((g, km, mode, variants[(n + g['sid']) % 3]))
+                v = variants[(n + g['sid']) % 3]
+                jobs.append((g, km, mode, v))
+                # the same group as a functools.partial that binds the defaulted keyword-only parameter, as a method
+                # (ignore=('self', ...)), and with a single-element ignore specification passed bare
+                rot = (n + gi) % (1 if tier == 'thorough' else 4) == 0
+                if rot and (g['sid'] // 8) % 3 == 2:
+                    jobs.append((g, km, mode, dict(v, kind='partial')))
+                if rot and g['iid'] in (0, 1, 2, 5, 6, 7, 8, 9):
+                    jobs.append((g, km, mode, dict(v, kind='method')))
+                if rot and g['iid'] in (1, 2, 3, 4, 5, 6, 7, 8, 10) and mode != 'keygen':
+                    jobs.append((dict(g, bare=True), km, mode, v))
     ctx = multiprocessing.get_context('fork')
     with ctx.Pool(common.NCPU) as pool:
         traces = pool.map(_run_one, jobs, chunksize=4)
@@ -135,7 +145,8 @@ def signature(t, v, pid):
     varkw_only = bool(ign['names']) and all(n not in params for n in ign['names']) and not ign['idx'] \
         and not ign['star'] and not ign['dstar']
     return {'engine': 'key', 'clauses': v[1], 'varkw_only_ignore': varkw_only, 'enc': t['km']['enc'], 'flat': t['km']['flat'],
-            'mode': t['meta']['mode'], 'ignore': t['meta']['ignore'],
+            'mode': t['meta']['mode'], 'ignore': t['meta']['ignore'], 'callable': t['meta'].get('kind', 'plain'),
+            'bare_ignore': bool(t['meta'].get('bare')),
             'has_varargs': t['sig']['va'], 'has_varkw': t['sig']['vk'], 'kwonly': len(t['sig']['ko']) > 0,
             'exc': e['exc']}
 
@@ -230,11 +241,11 @@ def check_generic(pid, tier, igns, modes=('keygen', 'std', 'safe'), pvals=None):
 
 
 def check_C09(tier):
-    return check_generic('C09', tier, {0})
+    return check_generic('C09', tier, {0}, pvals=None if tier == 'thorough' else {1, 5})
 
 
 def check_C10(tier):
-    return check_generic('C10', tier, {0}, pvals=None if tier == 'thorough' else {1, 2, 3})
+    return check_generic('C10', tier, {0}, pvals={1, 2, 3, 4, 5, 7} if tier == 'thorough' else {1, 2, 3, 7})
 
 
 def check_C11(tier):
